@@ -177,6 +177,12 @@ def run(chk):
     # "exactly the specified octets" includes the back-patched length fields and the AVP flag bits (C07's obligations)
     import rules.c07 as c07
     c07.run_config(chk, "default")
+    # "the assigned numbers": encode-side code tables and constructor bit assignments (C16, C17)
+    from framework import Sub
+    import rules.c16 as c16
+    import rules.c17 as c17
+    Sub(chk, "via C16 | ", lambda k: " encode" in k).borrow(c16, "default", 6, "encode-side code tables")
+    Sub(chk, "via C17 | ", lambda k: k.startswith(("ctor-shape", "spec-bit", "wire"))).borrow(c17, "default", 12, "capability/type bit assignments")
     if chk.tier == "thorough":
         for cfg in ("debug", "release"):
             run_config(chk, cfg)
